@@ -494,7 +494,10 @@ class SharesManager(BaseManager):
             parent = parents[-1]
             parent.items |= shared_directory.items
 
-        self._cleanup_term_map()
+        # Items of the removed directory are only weakly referenced by the term
+        # map but stay alive until garbage collected (reference cycle with the
+        # directory): rebuild the map so they are no longer found
+        self.rebuild_term_map()
 
         self._event_bus.emit_sync(SharedDirectoryChangeEvent(shared_directory))
 
